@@ -178,7 +178,7 @@ Proof.
   unfold c at 1. rewrite spec_symbol_correct; [|exact Hx|apply N.mod_lt; lia].
   replace (0 + N.of_nat (N.to_nat x)) with x by lia.
   replace (0 + sumN (firstn (N.to_nat x) F)) with c by (unfold c; lia).
-  rewrite Nnat.N2Nat.id. fold f. rewrite Ha. rewrite Hrd. reflexivity.
+  fold f. rewrite Ha. rewrite Hrd. reflexivity.
 Qed.
 
 Theorem rans4x8_o0_core_roundtrip : forall src F,
@@ -199,8 +199,8 @@ Proof.
     destruct (Hsym x (or_introl eq_refl)) as [Hx Hf].
     set (f := nth (N.to_nat x) F 0) in *.
     assert (Hd : state_ok d).
-    { inversion Hok as [|? ? _ H1]; inversion H1 as [|? ? _ H2]; inversion H2 as [|? ? _ H3];
-      inversion H3 as [|? ? H4 _]. exact H4. }
+    { inversion Hok as [|? ? _ Hk1]; inversion Hk1 as [|? ? _ Hk2]; inversion Hk2 as [|? ? _ Hk3];
+      inversion Hk3 as [|? ? Hk4 _]. exact Hk4. }
     assert (Hf4096 : f <= 4096).
     { pose proof (sum_firstn_nth_le F _ Hx). fold f in H. lia. }
     destruct (enc_renorm_terminates d f stack Hf ltac:(unfold state_ok in Hd; lia)) as [s1 [stack1 Hr]].
@@ -213,8 +213,9 @@ Proof.
       - unfold state_ok. rewrite cumulative_nth by exact Hx.
         apply rans_step_range; try lia.
         pose proof (sum_firstn_nth_le F _ Hx). fold f in H. lia.
-      - inversion Hok as [|? ? Ha H1]; inversion H1 as [|? ? Hb' H2]; inversion H2 as [|? ? Hc' H3].
-        repeat constructor; assumption. }
+      - inversion Hok as [|? ? Hka Hk1]; inversion Hk1 as [|? ? Hkb Hk2]; inversion Hk2 as [|? ? Hkc Hk3].
+        apply Forall_cons; [exact Hka|]. apply Forall_cons; [exact Hkb|].
+        apply Forall_cons; [exact Hkc|]. apply Forall_nil. }
     intros tail. cbn [length spec_decode0_loop]. subst stack1. rewrite <- app_assoc.
     unfold f. rewrite (spec_decode_one_enc F x s1 em d (stack ++ tail) Hsum Hx Hf Hb Hrd).
     cbn [app]. rewrite Hdec. reflexivity.
@@ -236,3 +237,129 @@ Qed.
    input is not empty) -- the value the specification asks for *)
 Lemma sumN_repeat0 n : sumN (repeat 0 n) = 0.
 Proof. induction n as [|n IH]; cbn [repeat sumN]; [reflexivity|]. rewrite IH. reflexivity. Qed.
+
+Lemma upd_out : forall l i v, (length l <= i)%nat -> upd l i v = l.
+Proof.
+  induction l as [|x r IH]; intros i v Hi; [destruct i; reflexivity|].
+  destruct i as [|i']; [cbn [length] in Hi; lia|]. cbn [upd]. rewrite IH; [reflexivity|].
+  cbn [length] in Hi. lia.
+Qed.
+
+Lemma nth_out0 : forall (l : list N) i, (length l <= i)%nat -> nth i l 0 = 0.
+Proof. intros l i Hi. apply nth_overflow. exact Hi. Qed.
+
+Lemma raw_frequencies_length src : length (raw_frequencies src) = 256%nat.
+Proof.
+  induction src as [|b r IH]; cbn [raw_frequencies]; [apply repeat_length|].
+  rewrite upd_length. exact IH.
+Qed.
+
+(* whatever normalize_frequencies returns (without panicking) sums to at most 4095, and has the
+   length of its argument or is the all-zero table *)
+Lemma normalize_sum_le raw F : normalize_frequencies raw = Some F -> sumN F <= 4095.
+Proof.
+  unfold normalize_frequencies. destruct (describe_frequencies raw) as [mi sum].
+  destruct (TWO32 <=? sum); [discriminate|].
+  destruct (sum =? 0).
+  { intros H; inversion H. unfold zeros256. rewrite sumN_repeat0. lia. }
+  destruct (existsb _ raw); [discriminate|].
+  set (nf := map _ raw). set (nsum := sumN nf).
+  destruct (nsum <? 4095) eqn:E1.
+  { intros H; inversion H; subst F.
+    destruct (Nat.lt_ge_cases mi (length nf)) as [Hin|Hout].
+    - pose proof (sumN_upd nf mi (nth mi nf 0 + (4095 - nsum)) Hin). fold nsum in H0. lia.
+    - rewrite upd_out by exact Hout. fold nsum. lia. }
+  destruct (4095 <? nsum) eqn:E2.
+  { destruct (nth mi nf 0 <? nsum - 4095) eqn:E3; [discriminate|].
+    intros H; inversion H; subst F.
+    destruct (Nat.lt_ge_cases mi (length nf)) as [Hin|Hout].
+    - pose proof (sumN_upd nf mi (nth mi nf 0 - (nsum - 4095)) Hin). fold nsum in H0. lia.
+    - rewrite (nth_out0 nf mi Hout) in E3. lia. }
+  intros H; inversion H; subst F. fold nsum. lia.
+Qed.
+
+Lemma normalize_length raw F :
+  length raw = 256%nat -> normalize_frequencies raw = Some F -> length F = 256%nat.
+Proof.
+  intros Hl. unfold normalize_frequencies. destruct (describe_frequencies raw) as [mi sum].
+  destruct (TWO32 <=? sum); [discriminate|].
+  destruct (sum =? 0); [intros H; inversion H; apply repeat_length|].
+  destruct (existsb _ raw); [discriminate|].
+  set (nf := map _ raw).
+  assert (Hnf : length nf = 256%nat) by (unfold nf; rewrite map_length; exact Hl).
+  destruct (_ <? 4095); [intros H; inversion H; rewrite upd_length; exact Hnf|].
+  destruct (4095 <? _).
+  { destruct (_ <? _); [discriminate|]. intros H; inversion H; rewrite upd_length; exact Hnf. }
+  intros H; inversion H; subst F; exact Hnf.
+Qed.
+
+(* The order-0 payload (states + renormalisation bytes) that the noodles encoder emits decodes,
+   under the independent decoder, to the input -- for EVERY byte string, provided the encoder's
+   own table gives each occurring symbol a non-zero frequency.  That proviso and `normalize_
+   frequencies src <> panic` are exactly the side conditions the proof forces ("no_overflow"). *)
+Definition no_overflow (src F : list N) : Prop :=
+  normalize_frequencies (raw_frequencies src) = Some F /\
+  forall x, In x src -> 0 < nth (N.to_nat x) F 0.
+
+Theorem rans4x8_o0_payload_roundtrip : forall src F,
+  Forall (fun x => x < 256) src -> no_overflow src F ->
+  exists st stack,
+    enc_symbols F (cumulative F) src = Some (st, stack) /\
+    forall tail, spec_decode0_loop (length src) F st (stack ++ tail) = Some (src, tail).
+Proof.
+  intros src F Hbytes [Hn Hpos].
+  assert (Hlen : length F = 256%nat)
+    by (eapply normalize_length; [apply raw_frequencies_length|exact Hn]).
+  destruct (rans4x8_o0_core_roundtrip src F) as [st [stack [He [_ [_ Hd]]]]].
+  { split; [pose proof (normalize_sum_le _ _ Hn); lia|].
+    intros x Hx. split; [|apply Hpos; exact Hx].
+    rewrite Forall_forall in Hbytes. specialize (Hbytes x Hx). rewrite Hlen. lia. }
+  exists st, stack. split; [exact He|exact Hd].
+Qed.
+
+(* ---------- the known defect classes, reproduced by the faithful model ---------- *)
+
+Definition bytes_of_result (r : enc_result) : list N :=
+  match r with EncOk b => b | _ => [] end.
+
+(* F8: `f * 4095` leaves u32 for a symbol count above 1_048_832 *)
+Lemma normalize_u32_overflow_refuted :
+  normalize_frequencies (upd zeros256 65 1048833) = None /\
+  normalize_frequencies (upd zeros256 65 1048832) <> None.
+Proof. split; vm_compute; [reflexivity|discriminate]. Qed.
+
+(* F8b: 127 symbols x 4128, one x 3871, 128 x 1 (528,255 bytes): every frequent symbol scales to
+   an exact integer, 128 rare ones are bumped to 1, and the correction exceeds the maximum's share *)
+Lemma normalize_u16_underflow_refuted :
+  normalize_frequencies (repeat 4128 127 ++ [3871] ++ repeat 1 128) = None.
+Proof. vm_compute. reflexivity. Qed.
+
+(* write_frequencies starts with prev_sym = 0: a table whose first symbol is 1 gets a run-length
+   byte the reader does not expect *)
+Lemma rans4x8_o0_first_symbol_1_refuted :
+  exists src, (exists b, encode_o0 src = EncOk b) /\
+              spec_decode (bytes_of_result (encode_o0 src)) <> Some src.
+Proof. exists [1]. split; [eexists; vm_compute; reflexivity|vm_compute; discriminate]. Qed.
+
+(* `position(..).unwrap_or(0)`: a run of consecutive symbols that reaches symbol 255 *)
+Lemma rans4x8_o0_run_to_255_refuted :
+  exists src, (exists b, encode_o0 src = EncOk b) /\
+              spec_decode (bytes_of_result (encode_o0 src)) <> Some src.
+Proof. exists [253; 254; 255]. split; [eexists; vm_compute; reflexivity|vm_compute; discriminate]. Qed.
+
+(* the empty input: the table is the lone terminator, read back as "symbol 0" *)
+Lemma rans4x8_o0_empty_refuted :
+  (exists b, encode_o0 [] = EncOk b) /\ spec_decode (bytes_of_result (encode_o0 [])) <> Some [].
+Proof. split; [eexists; vm_compute; reflexivity|vm_compute; discriminate]. Qed.
+
+(* end-to-end, on concrete inputs outside the known classes (non-vacuity of the whole pipeline:
+   table serialisation, header, states, payload) *)
+Example rans4x8_o0_end_to_end_1 :
+  let src := [0; 2; 0; 2; 7; 7; 7; 9; 0; 200; 255; 0; 2] in
+  spec_decode (bytes_of_result (encode_o0 src)) = Some src.
+Proof. vm_compute. reflexivity. Qed.
+
+Example rans4x8_o0_end_to_end_2 :
+  let src := [104; 101; 108; 108; 111; 32; 119; 111; 114; 108; 100; 33; 33] in
+  spec_decode (bytes_of_result (encode_o0 src)) = Some src.
+Proof. vm_compute. reflexivity. Qed.
